@@ -477,7 +477,11 @@ const USES: &[&str] = &[
 
 /// text that is safe after an `@expr`: starts with a byte that cannot continue the expression
 pub fn text_after_expr(r: &mut Rng) -> Vec<u8> {
-    let starts: &[&str] = &[" ", "<", "\n", ",", ")", ". ", ".)", ";", "! ", "'", "\"", "-", "&", "é", "/", ": ", "?"];
+    let starts: &[&str] = &[
+        " ", "<", "\n", ",", ")", ". ", ".)", ";", "! ", "'", "\"", "-", "&", "é", "/", ": ", "?",
+        // white space ends the fragment even when something that could continue a chain follows it
+        " .len()", " .item ", "\n  .pow(2)", "\t.x", " ::x", " (x)", " [0]", " !(x)", "\r\n.next", " .5em",
+    ];
     let mut t = r.pick(starts).as_bytes().to_vec();
     t.extend(rand_text(r));
     t
